@@ -9,7 +9,11 @@
      glob_delete_invariant / glob_write_invariant   deleting a listed set of files, or writing one file per listed item under
                               distinct names, does not depend on the listing order;
      run_history_independent  the files a plugin owns after a run do not depend on the directory's previous contents, when the
-                              plugin removes its owned pattern before writing, or always writes the same fixed set of names.
+                              plugin removes its owned pattern before writing, or always writes the same fixed set of names;
+     view_state_history_independent / const_state_history_independent / memo_history_independent
+                              the output of the n-th generation of one process equals that of a fresh process, when no
+                              generation changes the part of the module state the output depends on, or when the only state is
+                              a memo table over a pure function.
    That each Python expression of the plugins is an instance of one of these classes is established by the syntactic
    classification of lib/x_emit.py (Gen.EmitData) and validated by differential runs of the real plugins — not proved. *)
 From Coq Require Import List Arith Bool Permutation Lia String Ascii NArith.
@@ -294,7 +298,87 @@ Proof.
   pose proof (string_compare_trans_le _ _ _ A B) as C. destruct (String.compare a c); congruence.
 Qed.
 
-(* ------------------------------------------------------------------------------------------------ 5. site table *)
+(* ------------------------------------------------------------------------------------------------ 5. process history *)
+(* One Python process performs a sequence of generations.  Whatever survives from one generation to the next lives in module
+   objects (module-level names, class attributes, default-argument values, functools caches): the module state St.
+   A generation is   step : St -> M -> St * O   (state before, model) |-> (state after, output). *)
+Section Process.
+Variables (St M O : Type).
+Variable step : St -> M -> St * O.
+Definition after (s0 : St) (hist : list M) : St := fold_left (fun s m => fst (step s m)) hist s0.
+
+(* the output may depend on a VIEW of the state only, and no generation changes that view (state outside the view — logger
+   configuration, regex caches — may change freely) *)
+Section View.
+Variable W : Type.
+Variable view : St -> W.
+Hypothesis view_const : forall s m, view (fst (step s m)) = view s.
+Hypothesis out_view : forall s s' m, view s = view s' -> snd (step s m) = snd (step s' m).
+Lemma after_view : forall hist s0, view (after s0 hist) = view s0.
+Proof.
+  induction hist as [|m r IH]; intros s0; [reflexivity|].
+  cbn [after fold_left]. fold (after (fst (step s0 m)) r). rewrite IH. apply view_const.
+Qed.
+Theorem view_state_history_independent : forall s0 hist m, snd (step (after s0 hist) m) = snd (step s0 m).
+Proof. intros s0 hist m. apply out_view. apply after_view. Qed.
+End View.
+
+(* special case: the module state is constant after import (site class SModConst) *)
+Theorem const_state_history_independent : (forall s m, fst (step s m) = s) ->
+  forall s0 hist m, snd (step (after s0 hist) m) = snd (step s0 m).
+Proof.
+  intros C s0 hist m. apply (view_state_history_independent St (fun s => s)).
+  - exact C.
+  - intros s s' m' E. rewrite E. reflexivity.
+Qed.
+End Process.
+
+(* a memo table over a PURE function (site class SMemoPure): whatever consistent table earlier generations left behind —
+   the empty one of a fresh process, or any part of one after eviction — every call returns f k *)
+Section Memo.
+Variables (K V : Type).
+Variable keqb : K -> K -> bool.
+Hypothesis keqb_eq : forall a b, keqb a b = true -> a = b.     (* keys that the table identifies are the same argument *)
+Variable f : K -> V.
+Definition table := list (K * V).
+Fixpoint lookup (c : table) (k : K) : option V :=
+  match c with [] => None | e :: r => if keqb k (fst e) then Some (snd e) else lookup r k end.
+Definition consistent (c : table) : Prop := forall k v, lookup c k = Some v -> v = f k.
+Definition call (c : table) (k : K) : table * V :=
+  match lookup c k with Some v => (c, v) | None => ((k, f k) :: c, f k) end.
+Fixpoint calls (c : table) (ks : list K) : table * list V :=
+  match ks with
+  | [] => (c, [])
+  | k :: r => (fst (calls (fst (call c k)) r), snd (call c k) :: snd (calls (fst (call c k)) r))
+  end.
+
+Lemma consistent_nil : consistent [].
+Proof. intros k v H. discriminate H. Qed.
+Lemma call_value : forall c k, consistent c -> snd (call c k) = f k.
+Proof.
+  intros c k H. unfold call. destruct (lookup c k) as [v|] eqn:L; cbn [snd]; [|reflexivity]. apply H. exact L.
+Qed.
+Lemma call_consistent : forall c k, consistent c -> consistent (fst (call c k)).
+Proof.
+  intros c k H. unfold call. destruct (lookup c k) as [v|] eqn:L; cbn [fst]; [exact H|].
+  intros k' v'. cbn [lookup fst snd]. destruct (keqb k' k) eqn:E.
+  - intros Q. injection Q as Q. subst v'. rewrite (keqb_eq _ _ E). reflexivity.
+  - apply H.
+Qed.
+Theorem memo_history_independent : forall ks c, consistent c -> snd (calls c ks) = map f ks.
+Proof.
+  induction ks as [|k r IH]; intros c H; [reflexivity|].
+  cbn [calls snd map]. rewrite (call_value c k H). f_equal. apply IH. apply call_consistent. exact H.
+Qed.
+Corollary memo_same_as_fresh : forall ks c, consistent c -> snd (calls c ks) = snd (calls [] ks).
+Proof. intros ks c H. rewrite (memo_history_independent ks c H), (memo_history_independent ks [] consistent_nil). reflexivity. Qed.
+Lemma calls_consistent : forall ks c, consistent c -> consistent (fst (calls c ks)).
+Proof.
+  induction ks as [|k r IH]; intros c H; [exact H|]. cbn [calls fst]. apply IH. apply call_consistent. exact H.
+Qed.
+End Memo.
+
+(* ------------------------------------------------------------------------------------------------ 6. site table *)
 Inductive site_class :=
 | SSorted        (* sorted(...) applied before any order-dependent use                  -> emit_perm_invariant (CSorted / CMapSorted) *)
 | SMember        (* used only in `x in S` tests                                        -> emit_perm_invariant (CMember) *)
@@ -304,8 +388,13 @@ Inductive site_class :=
 | SValuesOnly    (* iteration over the values of the id-keyed dict: insertion order   -> emit_id_invariant *)
 | SDeleteOnly    (* directory listing whose items are only deleted                     -> glob_delete_invariant *)
 | SKeyedWrite    (* directory listing, one write per item under the item's own name    -> glob_write_invariant *)
+| SIdSource      (* a random value stored only as the id_ field of a model object: the `ida` of emit_id_invariant; its reads are sites *)
+| SModConst      (* module-level mutable value that no function changes                -> const_state_history_independent *)
+| SMemoPure      (* functools cache over a pure function of immutable arguments        -> memo_history_independent *)
+| SModState      (* module-level state changed by a function: output may depend on earlier generations: NOT covered *)
 | SExposed.      (* iteration order or id value can reach the output: NOT covered *)
-Definition covered (c : site_class) : bool := match c with SExposed => false | _ => true end.
+Definition covered (c : site_class) : bool := match c with SExposed | SModState => false | _ => true end.
+Definition stateless (c : site_class) : bool := match c with SModState => false | _ => true end.
 Record site := mkSite { s_file : string; s_line : nat; s_what : string; s_class : site_class }.
 (* a plugin either removes its owned pattern before writing or always writes the same fixed names *)
 Record plugin := mkPlugin { p_name : string; p_cleanup_first : bool; p_fixed_names : bool; p_writes_owned : bool }.
@@ -313,3 +402,17 @@ Definition plugin_ok (p : plugin) : bool := (p_cleanup_first p || p_fixed_names 
 Definition sites_ok (l : list site) : bool := forallb (fun s => covered (s_class s)) l.
 Definition plugins_ok (l : list plugin) : bool := forallb plugin_ok l.
 Definition exposed (l : list site) : list site := filter (fun s => negb (covered (s_class s))) l.
+(* no module-level state that a generation can change *)
+Definition state_ok (l : list site) : bool := forallb (fun s => stateless (s_class s)) l.
+Definition history_sites (l : list site) : list site := filter (fun s => negb (stateless (s_class s))) l.
+Lemma sites_ok_state_ok : forall l, sites_ok l = true -> state_ok l = true.
+Proof.
+  intros l H. unfold sites_ok, state_ok in *. rewrite forallb_forall in *. intros s I. specialize (H s I).
+  destruct (s_class s); try reflexivity; discriminate H.
+Qed.
+Lemma state_ok_no_history_sites : forall l, state_ok l = true -> history_sites l = [].
+Proof.
+  induction l as [|s r IH]; intros H; [reflexivity|].
+  unfold state_ok in H. cbn [forallb] in H. apply andb_true_iff in H. destruct H as [A B].
+  unfold history_sites. cbn [filter]. rewrite A. cbn [negb]. apply IH. exact B.
+Qed.
